@@ -63,14 +63,30 @@ def run_config(chk, cfg, own_kinds, *, max_replay=None, variant="eager", min_dep
         raise MachineryError(f"TLC failed on {cfg}:\n{tail}")
     chk.add_tlc(res, label or cfg)
     gfj = tlc.load_json(res, "gf.json")
-    states = [s for s in parse_dump(dump + ".dump", only={"prog", "hist", "n"}) if s["n"] >= min_depth]
+    # one streaming pass over the dump (millions of states in the larger configurations): a uniform reservoir sample of the
+    # states at depth >= min_depth is kept as raw text, only the sample is parsed
+    import re as _re
+    from .tlaval import iter_dump_blocks, parse_state_block
+    cap = max_replay if max_replay is not None else 20000
+    rng = random.Random(chk.seed)
+    nre = _re.compile(r"^/\\ n = (\d+)", _re.M)
+    kept, seen = [], 0
+    for body in iter_dump_blocks(dump + ".dump"):
+        m = nre.search(body)
+        if m is None or int(m.group(1)) < min_depth:
+            continue
+        seen += 1
+        if len(kept) < cap:
+            kept.append(body)
+        else:
+            j = rng.randrange(seen)
+            if j < cap:
+                kept[j] = body
     os.remove(dump + ".dump")
     tlc.cleanup(res)
-    states.sort(key=lambda s: s["n"])
-    rng = random.Random(chk.seed)
-    if max_replay is not None and len(states) > max_replay:
-        states = rng.sample(states, max_replay)
-        states.sort(key=lambda s: s["n"])
+    states = [parse_state_block(b, only={"prog", "hist", "n"}) for b in kept]
+    states.sort(key=lambda s: (s["n"], repr(s["prog"]), repr(s["hist"])))
+    if seen > len(kept):
         chk.cov["exhaustive"] = False
     todo = [(st["prog"], list(st["hist"])) for st in states]
     return _replay(chk, gfj, todo, own_kinds, variant, check_roundtrip)
